@@ -55,6 +55,7 @@ type world struct {
 	wEnd     int // logical time Commit returned
 	wOK      bool
 	outcome  []string
+	extra    map[uint32]string // keys other than k1 whose flush commit returned success -> value
 }
 
 type vio struct{ clause, site, detail string }
@@ -378,13 +379,60 @@ func tW() { // flush commit of a colliding key
 	}
 }
 
+// X and Y: flush commits of keys of their own whose table builders are open at the same time (file numbers are handed
+// out while another commit of the store is between reading and restoring the allocator). Y keeps a snapshot over X's
+// second commit.
+func flushOpen(key uint32, val string) kv.Flusher {
+	f := w.fam.NewFlusher()
+	if err := f.Add(key, []byte(val)); err != nil {
+		w.violate("flush-failed", "Add", err.Error())
+	}
+	return f
+}
+
+func flushCommit(who string, f kv.Flusher, key uint32, val string) {
+	err := f.Commit()
+	f.Release()
+	if err != nil {
+		w.violate("flush-failed", who, err.Error())
+		return
+	}
+	if w.extra == nil {
+		w.extra = map[uint32]string{}
+	}
+	w.extra[key] = val
+}
+
+func tX() {
+	flushCommit("X1", flushOpen(11, "m"), 11, "m")
+	flushCommit("X2", flushOpen(14, "n"), 14, "n")
+}
+
+func tY() {
+	f2, f3 := flushOpen(12, "p"), flushOpen(13, "q")
+	flushCommit("Y1", f2, 12, "p")
+	flushCommit("Y2", f3, 13, "q")
+	h := takeSnap()
+	a, e1 := h.load(13)
+	vsched.Point("Y between reads", nil)
+	b, e2 := h.load(13)
+	h.close()
+	if e1 != nil || e2 != nil {
+		w.violate("snapshot-read-error", "Y", fmt.Sprintf("%v / %v", e1, e2))
+	} else if a != b {
+		w.violate("snapshot-stable", "Y", fmt.Sprintf("two reads of key 13 through one snapshot differ: %q then %q", a, b))
+	} else if a != "q" {
+		w.violate("recency", "Y", fmt.Sprintf("snapshot taken after the commit of key 13 returned reads %q for it, committed value is %q", a, "q"))
+	}
+}
+
 func tC() { w.fam.Compact() }               // level-0 compaction (background goroutine = controlled thread)
 func tG() { kv.VerifStoreCompact(w.store) } // periodic job: needCompact/compact + reader cache cleanup
 func tD() { kv.VerifFamilyDeleteObsoleteFiles(w.fam) }
 
 func tR1G() { tR1(); tG() } // a reader that runs the periodic job (reader-cache cleanup) right after it closed its snapshot
 
-var threadFns = map[string]func(){"R1": tR1, "R2": tR2, "W": tW, "C": tC, "G": tG, "D": tD, "R1+G": tR1G}
+var threadFns = map[string]func(){"R1": tR1, "R2": tR2, "W": tW, "C": tC, "G": tG, "D": tD, "R1+G": tR1G, "X": tX, "Y": tY}
 
 func body(threads []string) func() {
 	return func() {
@@ -444,6 +492,30 @@ func finish(rep *vevid.Report, scen string, x *vsched.Result) {
 		w.violate("snapshot-read-error", "final", fmt.Sprintf("%v / %v", err, err2))
 	} else if got != want || got2 != want {
 		w.violate("recency", "final", fmt.Sprintf("late reader sees %q / %q, committed content is %q", got, got2, want))
+	}
+	if len(w.extra) > 0 {
+		hx := takeSnap()
+		var ks []uint32
+		for k := range w.extra {
+			ks = append(ks, k)
+		}
+		sort.Slice(ks, func(i, j int) bool { return ks[i] < ks[j] })
+		for _, k := range ks {
+			v, e := hx.load(k)
+			if e != nil {
+				w.violate("snapshot-read-error", "final", fmt.Sprintf("key %d: %v", k, e))
+			} else if v != w.extra[k] {
+				w.violate("recency", "final", fmt.Sprintf("late reader sees %q for key %d, its flush commit returned success with %q", v, k, w.extra[k]))
+			}
+		}
+		seen := map[table.FileNumber]bool{}
+		for _, fm := range hx.s.GetCurrent().GetAllFiles() {
+			if seen[fm.GetFileNumber()] {
+				w.violate("file-number-reused", "final", fmt.Sprintf("two files of the current version carry the number %d", fm.GetFileNumber()))
+			}
+			seen[fm.GetFileNumber()] = true
+		}
+		hx.close()
 	}
 	w.outcome = append(w.outcome, fmt.Sprintf("final=%s files=%d", got, len(files)))
 	for _, v := range w.viol {
@@ -520,7 +592,7 @@ func main() {
 
 	// quick: the scenarios that mix a snapshot reader with the version-changing jobs, and two readers opening the
 	// same (not yet cached) tables while the reader cache is cleaned; thorough: all
-	scenarios := [][]string{{"R1", "W", "C"}, {"R2", "W", "C"}, {"R1", "R2", "C"}, {"R1", "C", "G"}, {"R1", "W", "G"}, {"R1", "C", "D"}, {"R1", "R1+G"}, {"R2", "R1+G"}, {"R1", "R2", "G"}}
+	scenarios := [][]string{{"R1", "W", "C"}, {"R2", "W", "C"}, {"R1", "R2", "C"}, {"R1", "C", "G"}, {"R1", "W", "G"}, {"R1", "C", "D"}, {"R1", "R1+G"}, {"R2", "R1+G"}, {"R1", "R2", "G"}, {"X", "Y"}}
 	if f.Thorough() {
 		scenarios = nil
 		all := []string{"R1", "R2", "W", "C", "G"}
@@ -531,7 +603,7 @@ func main() {
 				}
 			}
 		}
-		scenarios = append(scenarios, []string{"R1", "R1+G"}, []string{"R2", "R1+G"}, []string{"R1", "R1", "G"}, []string{"R1", "R1", "C"}, []string{"R1", "R2", "W", "C"}, []string{"R1", "C", "D"}, []string{"R2", "W", "D"})
+		scenarios = append(scenarios, []string{"R1", "R1+G"}, []string{"R2", "R1+G"}, []string{"R1", "R1", "G"}, []string{"R1", "R1", "C"}, []string{"R1", "R2", "W", "C"}, []string{"R1", "C", "D"}, []string{"R2", "W", "D"}, []string{"X", "Y"}, []string{"X", "Y", "C"}, []string{"X", "Y", "R1"})
 	}
 	bound := 2
 	if f.Thorough() {
@@ -540,7 +612,7 @@ func main() {
 	if v := os.Getenv("C02_BOUND"); v != "" { // sizing / debugging
 		fmt.Sscan(v, &bound)
 	}
-	rep.Rule = fmt.Sprintf("scenarios (quick: 9 of them; thorough: all) = 3-thread subsets of {R1:snapshot+Load x2, R2:snapshot+FindReaders/Get+iterate, W:flush commit of the same key, C:Family.Compact (background job incl. obsolete-file deletion), G:store periodic job (compaction trigger + reader-cache cleanup), D:obsolete-file deletion} plus {R1,R1,C},{R1,R1,G},{R1,R2,W,C},{R1,C,D},{R2,W,D} and {R1|R2, R1+G} (R1+G: a reader that runs the periodic job itself after closing its snapshot) on a family pre-loaded with two level-0 files sharing a key; every schedule with <=%d preemptions; distinct = distinct (scenario, schedule); non-trivial = schedule with >=1 context switch between live threads", bound)
+	rep.Rule = fmt.Sprintf("scenarios (quick: 9 of them; thorough: all) = 3-thread subsets of {R1:snapshot+Load x2, R2:snapshot+FindReaders/Get+iterate, W:flush commit of the same key, C:Family.Compact (background job incl. obsolete-file deletion), G:store periodic job (compaction trigger + reader-cache cleanup), D:obsolete-file deletion} plus {R1,R1,C},{R1,R1,G},{R1,R2,W,C},{R1,C,D},{R2,W,D}, {X,Y} (X: two flush commits of own keys one after the other; Y: two flushers open at once, committed, then a snapshot read twice; thorough also with C / R1) and {R1|R2, R1+G} (R1+G: a reader that runs the periodic job itself after closing its snapshot) on a family pre-loaded with two level-0 files sharing a key; every schedule with <=%d preemptions; distinct = distinct (scenario, schedule); non-trivial = schedule with >=1 context switch between live threads", bound)
 	rep.Bounds["preemption_bound"] = bound
 	rep.Bounds["scenarios"] = len(scenarios)
 	if os.Getenv("C02_TRACE") != "" {
